@@ -245,6 +245,11 @@ public:
 						", line: " + Convert::ToString(mCsvReader->GetCurrentIndex()));
 				}
 			}
+			catch (const std::bad_alloc&)
+			{
+				// Lack of memory is not a mismatch of types
+				throw;
+			}
 			catch (...)
 			{
 				if (GetOptions().mismatchedTypesPolicy == MismatchedTypesPolicy::ThrowError)
